@@ -114,7 +114,11 @@ def recDirProg (dirTy recTy : Nat) (id : String) : Prog :=
         | .ok ents => loadChildren recTy (subDirs ents) own
     | .ok _ => .panic
 
-/-! ## Script compounds -/
+/-! ## Script compounds
+
+A script is a list of tokens; `@T:id:n` is `get_or_insert::<T>(id, T::from_int(n))` from inside the
+loader (possibly into the very slot that is being loaded). Same accepted and rejected forms as
+`parse_script` in `harness/src/types.rs`. -/
 
 inductive Tok
   | lit (n : Int)
